@@ -41,6 +41,9 @@ def funcs(maxlen):
         fs.append(A.Func("s_res_ref%d" % i, A.StrRes("cref", text), []))
         for flen in (1, 4, 7, 12):
             fs.append(A.Func("s_res_len%d_%d" % (i, flen), A.CStrRes(text, flen), []))
+            # std::string results into a fixed-length variable (by value and by reference)
+            fs.append(A.Func("s_res_slen%d_%d" % (i, flen), A.StrRes("val", text, flen), []))
+            fs.append(A.Func("s_res_rlen%d_%d" % (i, flen), A.StrRes("cref", text, flen), []))
     return fs
 
 
